@@ -428,4 +428,151 @@ example : (match mergeEvents exSpecs (some "v")
     | .error .conflict => true
     | _ => false) = true := by decide +kernel
 
+/-! ### event types that gain properties -/
+theorem firstNonEmpty_unused (p : String) : ∀ (es : List Event), (∀ e ∈ es, e.objects p = []) → firstNonEmpty p es = []
+  | [], _ => rfl
+  | e :: es, h => by
+    have he : e.objects p = [] := h e (by simp)
+    simp only [firstNonEmpty, he, List.isEmpty_nil, if_true]
+    exact firstNonEmpty_unused p es (fun x hx => h x (by simp [hx]))
+
+/-- a property none of the events has objects for merges to nothing, whatever its strategy -/
+theorem mergeProp_unused (s : PropSpec) (es : List Event) (h : ∀ e ∈ es, e.objects s.name = []) : mergeProp s es = [] := by
+  have hacc : es.flatMap (·.objects s.name) = [] := by
+    rw [List.flatMap_eq_nil_iff]; exact h
+  unfold mergeProp
+  simp only [hacc]
+  cases s.merge with
+  | min => rfl
+  | max => rfl
+  | add => rfl
+  | replace =>
+    simp only
+    cases hl : es.getLast? with
+    | none => rfl
+    | some e => exact h e (List.mem_of_getLast? hl)
+  | set => exact firstNonEmpty_unused _ _ h
+  | any => exact firstNonEmpty_unused _ _ h
+  | match_ => exact firstNonEmpty_unused _ _ h
+
+theorem objects_absent (e : Event) (p : String) (h : ∀ pv ∈ e.props, pv.1 ≠ p) : e.objects p = [] := by
+  unfold Event.objects Event.pairs
+  have : (List.filter (fun x => x.1 == p) (e.props.flatMap fun pv => pv.2.map fun v => (pv.1, v))) = [] := by
+    rw [List.filter_eq_nil_iff]
+    intro x hx
+    simp only [List.mem_flatMap, List.mem_map] at hx
+    obtain ⟨pv, hpv, v, _, rfl⟩ := hx
+    simpa using h pv hpv
+  rw [this]; rfl
+
+
+theorem conflictIn_extension (specs specs' : List PropSpec) (vp : Option String) (es : List Event)
+    (hsub : ∀ s ∈ specs, s ∈ specs')
+    (hnew : ∀ s' ∈ specs', s' ∈ specs ∨ ∀ e ∈ es, e.objects s'.name = []) :
+    conflictIn specs' vp es = conflictIn specs vp es := by
+  unfold conflictIn
+  cases vp with
+  | none => rfl
+  | some v =>
+    simp only [hasConflict]
+    have key : ∀ a ∈ es, ∀ b ∈ es, conflictPair specs' v a b = conflictPair specs v a b := by
+      intro a ha b hb
+      unfold conflictPair
+      congr 1
+      rw [Bool.eq_iff_iff]
+      simp only [List.any_eq_true]
+      constructor
+      · rintro ⟨s', hs', hne⟩
+        rcases hnew s' hs' with h | h
+        · exact ⟨s', h, hne⟩
+        · rw [h a ha, h b hb] at hne; simp at hne
+      · rintro ⟨s, hs, hne⟩; exact ⟨s, hsub s hs, hne⟩
+    rw [Bool.eq_iff_iff]
+    simp only [List.any_eq_true]
+    constructor
+    · rintro ⟨a, ha, b, hb, h⟩; exact ⟨a, ha, b, hb, by rw [← key a ha b hb]; exact h⟩
+    · rintro ⟨a, ha, b, hb, h⟩; exact ⟨a, ha, b, hb, by rw [key a ha b hb]; exact h⟩
+
+/-- C10/C04: adding properties that none of the events carries (what an accepted upgrade of the event
+type may do) changes neither whether the events merge nor what they merge into -/
+theorem merge_spec_extension (specs specs' : List PropSpec) (hn' : (specs'.map (·.name)).Nodup)
+    (hsub : ∀ s ∈ specs, s ∈ specs') (vp : Option String) (es : List Event)
+    (hnew : ∀ s' ∈ specs', s' ∈ specs ∨ ∀ e ∈ es, e.objects s'.name = []) (hn : (specs.map (·.name)).Nodup) :
+    (∀ r, mergeEvents specs vp es = .ok r → ∃ r', mergeEvents specs' vp es = .ok r' ∧
+        (∀ p, r'.objects p = r.objects p) ∧ r'.parents = r.parents ∧ r'.type = r.type ∧ r'.source = r.source ∧ r'.atts = r.atts) ∧
+    (∀ err, mergeEvents specs vp es = .error err → mergeEvents specs' vp es = .error err) := by
+  have hconf := conflictIn_extension specs specs' vp (versionOrder vp es) hsub (by
+    intro s' hs'
+    rcases hnew s' hs' with h | h
+    · exact Or.inl h
+    · exact Or.inr (fun e he => h e ((mem_versionOrder vp es e).mp he)))
+  constructor
+  · intro r hr
+    obtain ⟨first, rest, hv, hshape⟩ := merge_ok_shape specs vp es r hr
+    have hok' : ∃ r', mergeEvents specs' vp es = .ok r' := by
+      unfold mergeEvents at hr ⊢
+      simp only at hr ⊢
+      rw [hconf]
+      cases hc : conflictIn specs vp (versionOrder vp es) with
+      | true => rw [hc] at hr; simp only [if_true] at hr; cases hr
+      | false =>
+        simp only [Bool.false_eq_true, if_false]
+        rw [hv]
+        exact ⟨_, rfl⟩
+    obtain ⟨r', hr'⟩ := hok'
+    obtain ⟨first', rest', hv', hshape'⟩ := merge_ok_shape specs' vp es r' hr'
+    rw [hv] at hv'
+    simp only [List.cons.injEq] at hv'
+    obtain ⟨rfl, rfl⟩ := hv'
+    refine ⟨r', hr', ?_, by rw [hshape, hshape'], by rw [hshape, hshape'], by rw [hshape, hshape'], by rw [hshape, hshape']⟩
+    intro p
+    by_cases hp' : ∃ s' ∈ specs', s'.name = p
+    · obtain ⟨s', hs', rfl⟩ := hp'
+      rw [merged_objects specs' hn' vp es r' hr' s' hs']
+      rcases hnew s' hs' with h | h
+      · rw [merged_objects specs hn vp es r hr s' h]
+      · have hun := mergeProp_unused s' _ (fun e he => h e ((mem_versionOrder vp es e).mp he))
+        rw [hun]
+        by_cases hin : s' ∈ specs
+        · rw [merged_objects specs hn vp es r hr s' hin, hun]
+        · symm
+          apply objects_absent
+          intro pv hpv
+          rw [hshape] at hpv
+          simp only [List.mem_map] at hpv
+          obtain ⟨t, ht, rfl⟩ := hpv
+          intro hname
+          have : t = s' := nodup_map_inj _ specs' hn' t (hsub t ht) s' hs' hname
+          exact hin (this ▸ ht)
+    · have hp : ¬ ∃ s ∈ specs, s.name = p := fun ⟨s, hs, hsn⟩ => hp' ⟨s, hsub s hs, hsn⟩
+      rw [objects_absent r' p, objects_absent r p]
+      · intro pv hpv; rw [hshape] at hpv
+        simp only [List.mem_map] at hpv
+        obtain ⟨t, ht, rfl⟩ := hpv
+        exact fun h => hp ⟨t, ht, h⟩
+      · intro pv hpv; rw [hshape'] at hpv
+        simp only [List.mem_map] at hpv
+        obtain ⟨t, ht, rfl⟩ := hpv
+        exact fun h => hp' ⟨t, ht, h⟩
+  · intro err herr
+    unfold mergeEvents at herr ⊢
+    simp only at herr ⊢
+    rw [hconf]
+    cases hc : conflictIn specs vp (versionOrder vp es) with
+    | true => rw [hc] at herr; exact herr
+    | false =>
+      rw [hc] at herr
+      simp only [Bool.false_eq_true, if_false] at herr ⊢
+      cases hv : versionOrder vp es with
+      | nil => rw [hv] at herr; exact herr
+      | cons f r => rw [hv] at herr; cases herr
+
+theorem objects_absent_pairs (e : Event) (p : String) (h : ∀ pv ∈ e.pairs, pv.1 ≠ p) : e.objects p = [] := by
+  unfold Event.objects
+  have : e.pairs.filter (fun x => x.1 == p) = [] := by
+    rw [List.filter_eq_nil_iff]
+    intro x hx
+    simpa using h x hx
+  rw [this]; rfl
+
 end EdxmlProps.C04
